@@ -431,7 +431,8 @@ def run_tpd(c):
 def deg_case(draw, tier="quick"):
     what = draw(st.sampled_from(["line_pair", "plane_pair", "cone", "cylinder", "circle", "sphere"]))
     return {"what": what, "v": [draw(C.ints(5)) for _ in range(12)], "A": draw(C.hpoint(3, 5)), "B": draw(C.hpoint(3, 5)), "r": draw(st.sampled_from([1, 2, 3])),
-            "k": draw(st.integers(0, len(UNIT) - 1)), "k2": draw(st.integers(0, len(UNIT) - 1)), "t": draw(st.sampled_from([1, 2, -1, 3]))}
+            "k": draw(st.integers(0, len(UNIT) - 1)), "k2": draw(st.integers(0, len(UNIT) - 1)), "t": draw(st.sampled_from([1, 2, -1, 3])),
+            "far": draw(st.sampled_from([1, 1, 4, 8]))}
 
 
 def run_deg(c):
@@ -470,6 +471,8 @@ def run_deg(c):
     r = c["r"]
     if what in ("circle", "sphere"):
         d = 2 if what == "circle" else 3
+        # centres up to 40 units from the origin: the entries of the matrix then span three orders of magnitude (1 ... |c|^2)
+        ctr = ctr * float(c.get("far", 1))
         Q = Circle(Point(*ctr[:2]), r) if d == 2 else Sphere(Point(*ctr), r)
         u1, u2 = UNIT[c["k"]], UNIT[c["k2"]]
         if c["k"] == c["k2"]:
@@ -544,6 +547,6 @@ LAWS = [
         mandatory=("tangent", "secant", "lines", "quadrics", "collection-with-axis-parallel-line")),
     Law("tangent_polar_dual", lambda tier: tpd_case(tier), run_tpd, lambda c: True, lambda c: [c["what"]] + ([c["cls"]] if c["what"] in ("dual_class", "is_tangent_class") else []),
         {"quick": 2500, "thorough": 40000}, "tangent(at), tangents from outside, pole/polar reciprocity, dual involution for every class, is_tangent", shard=300),
-    Law("special_quadrics", lambda tier: deg_case(tier), run_deg, lambda c: True, lambda c: [c["what"]], {"quick": 1200, "thorough": 20000},
+    Law("special_quadrics", lambda tier: deg_case(tier), run_deg, lambda c: True, lambda c: [c["what"]] + (["centre-far-from-origin"] if c["what"] in ("circle", "sphere") and c.get("far", 1) > 1 else []), {"quick": 1200, "thorough": 20000},
         "line pairs / plane pairs / cones / cylinders / circles / spheres intersected with secants through known points and tangents", shard=200),
 ]
